@@ -2020,7 +2020,9 @@ where
         // If this is our first connection to the network, we just ask for a fixed backlog
         // of messages to get us started.
         let since = if let Some(last) = self.last_online_at {
-            Timestamp::from(last - SUBSCRIBE_BACKLOG_DELTA)
+            // Nb. `last` comes from the gossip store, ie. from timestamps chosen by peers:
+            // `Timestamp` subtraction saturates, `LocalTime` subtraction doesn't.
+            Timestamp::from(last) - SUBSCRIBE_BACKLOG_DELTA.as_millis() as u64
         } else {
             (*now - INITIAL_SUBSCRIBE_BACKLOG_DELTA).into()
         };
